@@ -25,3 +25,254 @@ Definition cfg_F10b : config :=
 Definition fs1 : fs :=
   fs0 ++ [(pR ++ [s_a], Dir); (pR ++ [s_a; s_init], File 0); (pR ++ [s_a; s_client], Dir);
           (pR ++ [s_a; s_client; s_client_py], File 1)].
+
+(* ---------- paths ---------- *)
+Lemma list_eqb_str_eq : forall a b : path, path_eqb a b = true <-> a = b.
+Proof.
+  unfold path_eqb. induction a as [|x a IH]; destruct b as [|y b]; simpl; split; intro H;
+    try reflexivity; try discriminate.
+  - apply andb_true_iff in H. destruct H as [H1 H2]. apply str_eqb_eq in H1. apply IH in H2. subst. reflexivity.
+  - inversion H; subst. apply andb_true_iff. split; [apply str_eqb_refl | apply IH; reflexivity].
+Qed.
+
+Lemma path_eqb_refl : forall a, path_eqb a a = true.
+Proof. intro a. apply list_eqb_str_eq. reflexivity. Qed.
+
+Lemma under_refl : forall a, under a a = true.
+Proof. induction a as [|x a IH]; simpl; [reflexivity|]. rewrite str_eqb_refl. exact IH. Qed.
+
+Lemma under_app : forall a x, under a (a ++ x) = true.
+Proof. induction a as [|y a IH]; intro x; simpl; [reflexivity|]. rewrite str_eqb_refl. apply IH. Qed.
+
+Lemma under_trans : forall a b c, under a b = true -> under b c = true -> under a c = true.
+Proof.
+  induction a as [|x a IH]; intros b c H1 H2; simpl; [reflexivity|].
+  destruct b as [|y b]; [discriminate|]. destruct c as [|z c]; [discriminate|].
+  simpl in *. apply andb_true_iff in H1. destruct H1 as [E1 H1].
+  apply andb_true_iff in H2. destruct H2 as [E2 H2].
+  apply str_eqb_eq in E1. apply str_eqb_eq in E2. subst. rewrite str_eqb_refl. simpl. eapply IH; eauto.
+Qed.
+
+(* two prefixes of the same path are comparable *)
+Lemma under_comparable : forall a b p, under a p = true -> under b p = true -> under a b = true \/ under b a = true.
+Proof.
+  induction a as [|x a IH]; intros b p Ha Hb.
+  - left. reflexivity.
+  - destruct b as [|y b]; [right; reflexivity|].
+    destruct p as [|z p]; [discriminate|]. simpl in *.
+    apply andb_true_iff in Ha. destruct Ha as [E1 Ha].
+    apply andb_true_iff in Hb. destruct Hb as [E2 Hb].
+    apply str_eqb_eq in E1. apply str_eqb_eq in E2. subst. rewrite str_eqb_refl. simpl.
+    eapply IH; eauto.
+Qed.
+
+Lemma under_antisym : forall a b, under a b = true -> under b a = true -> a = b.
+Proof.
+  induction a as [|x a IH]; intros b H1 H2.
+  - destruct b; [reflexivity | discriminate].
+  - destruct b as [|y b]; [discriminate|]. simpl in *.
+    apply andb_true_iff in H1. destruct H1 as [E1 H1].
+    apply andb_true_iff in H2. destruct H2 as [_ H2].
+    apply str_eqb_eq in E1. subst. f_equal. apply IH; auto.
+Qed.
+
+Lemma under_app_inv : forall r a b, under (r ++ a) (r ++ b) = under a b.
+Proof. induction r as [|x r IH]; intros a b; simpl; [reflexivity|]. rewrite str_eqb_refl. apply IH. Qed.
+
+Lemma under_exists : forall a p, under a p = true -> exists x, p = a ++ x.
+Proof.
+  induction a as [|y a IH]; intros p H.
+  - exists p. reflexivity.
+  - destruct p as [|z p]; [discriminate|]. simpl in H. apply andb_true_iff in H. destruct H as [E H].
+    apply str_eqb_eq in E. subst. destruct (IH p H) as [x Hx]. exists x. simpl. f_equal. exact Hx.
+Qed.
+
+Lemma In_prefixes : forall p q, In q (prefixes p) <-> (q <> [] /\ under q p = true).
+Proof.
+  induction p as [|x p IH]; intro q; simpl.
+  - split; [intros [] | intros [Hn Hu]]. destruct q; [congruence | discriminate].
+  - split.
+    + intros [H|H].
+      * subst. split; [discriminate|]. simpl. rewrite str_eqb_refl. reflexivity.
+      * apply in_map_iff in H. destruct H as [q' [Hq Hin]]. subst. split; [discriminate|].
+        simpl. rewrite str_eqb_refl. simpl. apply IH in Hin. destruct q'; [reflexivity | apply Hin].
+    + intros [Hn Hu]. destruct q as [|y q]; [congruence|]. simpl in Hu.
+      apply andb_true_iff in Hu. destruct Hu as [E Hu]. apply str_eqb_eq in E. subst y.
+      destruct q as [|z q]; [left; reflexivity|]. right. apply in_map_iff. exists (z :: q). split; [reflexivity|].
+      apply IH. split; [discriminate | exact Hu].
+Qed.
+
+Lemma under_removelast : forall p, under (removelast p) p = true.
+Proof.
+  induction p as [|x p IH]; [reflexivity|]. destruct p as [|y p]; [reflexivity|].
+  change (removelast (x :: y :: p)) with (x :: removelast (y :: p)).
+  simpl under. rewrite str_eqb_refl. exact IH.
+Qed.
+
+(* ---------- operations that stay outside a directory r leave its content alone ---------- *)
+Definition op_outside (r : path) (op : fs_op) : Prop :=
+  match op with
+  | Write p _ | WriteIfAbsent p _ | Remove p | Mkdirs p => under r p = false
+  | Rmtree p => under r p = false /\ under p r = false
+  end.
+
+Definition inr (r : path) (kv : path * entry) : bool := under r (fst kv).
+
+Lemma filter_set_outside : forall r s p e, under r p = false -> filter (inr r) (set s p e) = filter (inr r) s.
+Proof.
+  intros r s p e Hp. induction s as [|[q e'] s IH]; simpl.
+  - unfold inr. simpl. rewrite Hp. reflexivity.
+  - destruct (path_eqb p q) eqn:E; simpl.
+    + apply list_eqb_str_eq in E. subst q. unfold inr. simpl. rewrite Hp. reflexivity.
+    + rewrite IH. reflexivity.
+Qed.
+
+Lemma filter_filter_absorb : forall {A} (f g : A -> bool) l,
+  (forall x, f x = true -> g x = true) -> filter f (filter g l) = filter f l.
+Proof.
+  intros A f g l H. induction l as [|x l IH]; simpl; [reflexivity|].
+  destruct (g x) eqn:Eg; simpl.
+  - rewrite IH. reflexivity.
+  - destruct (f x) eqn:Ef; [apply H in Ef; congruence | exact IH].
+Qed.
+
+Lemma under_false_prefix : forall r q p, under r p = false -> under q p = true -> under r q = false.
+Proof.
+  intros r q p Hp Hq. destruct (under r q) eqn:E; [|reflexivity].
+  rewrite (under_trans r q p E Hq) in Hp. discriminate.
+Qed.
+
+Lemma mkdirs_outside : forall r l s, (forall q, In q l -> under r q = false) ->
+  filter (inr r) (fold_left mkdir1 l s) = filter (inr r) s.
+Proof.
+  intros r l. induction l as [|q l IH]; intros s H; simpl; [reflexivity|].
+  rewrite IH by (intros q' Hq'; apply H; right; exact Hq').
+  unfold mkdir1. destruct (exists_b s q); [reflexivity|].
+  rewrite filter_app. simpl. unfold inr at 2. simpl. rewrite (H q (or_introl eq_refl)). apply app_nil_r.
+Qed.
+
+Lemma apply_outside : forall r s op, op_outside r op -> filter (inr r) (apply_op s op) = filter (inr r) s.
+Proof.
+  intros r s op H. destruct op as [p t|p t|p|p|p]; simpl in *.
+  - apply filter_set_outside. exact H.
+  - destruct (exists_b s p); [reflexivity | apply filter_set_outside; exact H].
+  - apply filter_filter_absorb. intros [q e] Hq. unfold inr in Hq. simpl in *.
+    destruct (path_eqb q p) eqn:E; [|reflexivity]. apply list_eqb_str_eq in E. subst. congruence.
+  - apply mkdirs_outside. intros q Hq. apply In_prefixes in Hq. destruct Hq as [_ Hq].
+    eapply under_false_prefix; eauto.
+  - destruct H as [H1 H2]. apply filter_filter_absorb. intros [q e] Hq. unfold inr in Hq. simpl in *.
+    destruct (under p q) eqn:E; [|reflexivity].
+    destruct (under_comparable r p q Hq E) as [C|C]; congruence.
+Qed.
+
+Lemma touched_outside : forall r s op p, op_outside r op -> In p (op_touched s op) -> under r p = false.
+Proof.
+  intros r s op p H Hin. destruct op as [q t|q t|q|q|q]; simpl in *.
+  - destruct Hin as [Hin|[]]. subst. exact H.
+  - destruct (exists_b s q); [contradiction|]. destruct Hin as [Hin|[]]. subst. exact H.
+  - destruct Hin as [Hin|[]]. subst. exact H.
+  - apply filter_In in Hin. destruct Hin as [Hin _]. apply In_prefixes in Hin. destruct Hin as [_ Hin].
+    eapply under_false_prefix; eauto.
+  - destruct H as [H1 H2]. apply in_map_iff in Hin. destruct Hin as [[p' e] [Hp Hin]]. simpl in Hp. subst p'.
+    apply filter_In in Hin. destruct Hin as [_ Hu]. simpl in Hu.
+    destruct (under r p) eqn:E; [|reflexivity].
+    destruct (under_comparable r q p E Hu) as [C|C]; congruence.
+Qed.
+
+Lemma exec_outside : forall r pl s, Forall (fun so => op_outside r (snd so)) pl ->
+  filter (inr r) (exec s pl) = filter (inr r) s.
+Proof.
+  intros r pl. unfold exec. induction pl as [|[st op] pl IH]; intros s H; simpl; [reflexivity|].
+  inversion H as [|? ? H1 H2]; subst. rewrite IH by exact H2. apply apply_outside. exact H1.
+Qed.
+
+Lemma touched_all_outside : forall r pl s p, Forall (fun so => op_outside r (snd so)) pl ->
+  In p (touched s pl) -> under r p = false.
+Proof.
+  intros r pl. induction pl as [|[st op] pl IH]; intros s p H Hin; simpl in *; [contradiction|].
+  inversion H as [|? ? H1 H2]; subst. apply in_app_or in Hin. destruct Hin as [Hin|Hin].
+  - eapply touched_outside; eauto.
+  - eapply IH; eauto.
+Qed.
+
+(* ---------- in the diff path every operation is outside the project root ---------- *)
+Lemma disjoint_app : forall r t x, under r t = false -> under t r = false -> under r (t ++ x) = false.
+Proof.
+  intros r t x H1 H2. destruct (under r (t ++ x)) eqn:E; [|reflexivity].
+  destruct (under_comparable r t (t ++ x) E (under_app t x)) as [C|C]; congruence.
+Qed.
+
+Lemma rebase_outside : forall r t op, under r t = false -> under t r = false -> op_outside r (rebase t op).
+Proof.
+  intros r t op H1 H2. destruct op as [p n|p n|p|p|p]; simpl; try (apply disjoint_app; assumption).
+  split; [apply disjoint_app; assumption|].
+  destruct (under (t ++ p) r) eqn:E; [|reflexivity].
+  rewrite (under_trans t (t ++ p) r (under_app t p) E) in H2. discriminate.
+Qed.
+
+Lemma before_incl : forall k l st, In st (before k l) -> In st l.
+Proof.
+  intros k l. induction l as [|x l IH]; intros st H; simpl in *; [contradiction|].
+  destruct k as [f|].
+  - destruct (stage_eqb f x); [contradiction|]. destruct H as [H|H]; auto.
+  - destruct H as [H|H]; auto.
+Qed.
+
+Lemma Post_in_stages : forall d p, In Post (stages d p) -> p = true.
+Proof.
+  intros d p H. destruct p; [reflexivity|]. destruct d; simpl in H;
+    repeat (destruct H as [H|H]; [discriminate|]); contradiction.
+Qed.
+
+Lemma wf_tmp_split : forall c, wf_tmp c = true -> under (root c) (tmp c) = false /\ under (tmp c) (root c) = false.
+Proof.
+  intros c H. unfold wf_tmp in H. apply andb_true_iff in H. destruct H as [H1 H2].
+  apply negb_true_iff in H1. apply negb_true_iff in H2. auto.
+Qed.
+
+Lemma guard_F10b_post : forall c, guard_F10b c = true -> post c = true ->
+  under (root c) (cwd c ++ [s_ruff_cache]) = false.
+Proof.
+  intros c H Hp. unfold guard_F10b in H. rewrite Hp in H. simpl in H. apply negb_true_iff in H. exact H.
+Qed.
+
+Lemma effects_diff_outside : forall c st, wf_tmp c = true -> guard_F10b c = true ->
+  In st (stages true (post c)) ->
+  Forall (fun op => op_outside (root c) op) (effects c true st).
+Proof.
+  intros c st Hw Hg Hin. destruct (wf_tmp_split c Hw) as [H1 H2].
+  assert (Hgen : Forall (fun op => op_outside (root c) op) (map (rebase (tmp c)) (rel_effects c true st))).
+  { apply Forall_forall. intros op Hop. apply in_map_iff in Hop. destruct Hop as [op' [E _]]. subst.
+    apply rebase_outside; assumption. }
+  destruct st; try exact Hgen.
+  (* Post *)
+  simpl. constructor; [|constructor]. simpl. apply guard_F10b_post; [exact Hg|].
+  eapply Post_in_stages. exact Hin.
+Qed.
+
+Lemma plan_diff_outside : forall c k, wf_tmp c = true -> guard_F10b c = true ->
+  Forall (fun so => op_outside (root c) (snd so)) (plan_main c true k ++ plan_final c true k).
+Proof.
+  intros c k Hw Hg. apply Forall_app. split.
+  - unfold plan_main. apply Forall_forall. intros [st op] Hin. apply in_flat_map in Hin.
+    destruct Hin as [st' [Hst Hin]]. apply in_map_iff in Hin. destruct Hin as [op' [E Hop]].
+    inversion E; subst. simpl.
+    pose proof (effects_diff_outside c st Hw Hg (before_incl _ _ _ Hst)) as HF.
+    rewrite Forall_forall in HF. apply HF. exact Hop.
+  - unfold plan_final. destruct (true && existsb (stage_eqb Setup) (before k (stages true (post c)))); [|constructor].
+    constructor; [|constructor]. simpl. destruct (wf_tmp_split c Hw) as [H1 H2]. split; assumption.
+Qed.
+
+(* C10_noforce *)
+Theorem noforce_untouched : forall c k s,
+  wf_tmp c = true -> guard_F10b c = true ->
+  force c = false -> exists_b s (out_dir c) = true ->
+  restrict_root c (fst (generate c k s)) = restrict_root c s.
+Proof.
+  intros c k s Hw Hg Hf He. unfold generate. cbn [fst].
+  assert (Hd : diff_mode c s = true) by (unfold diff_mode; rewrite Hf, He; reflexivity).
+  rewrite Hd. unfold restrict_root.
+  change (fun kv : path * entry => under (root c) (fst kv)) with (inr (root c)).
+  pose proof (plan_diff_outside c k Hw Hg) as HF. apply Forall_app in HF. destruct HF as [HF1 HF2].
+  rewrite (exec_outside _ _ _ HF2). apply exec_outside. exact HF1.
+Qed.
